@@ -68,6 +68,8 @@ def s_case(draw):
                            st.builds(lambda k, b: {"at": "result", "k": k, "base": b}, st.integers(0, 12), st.booleans())))
     return {"suite": suite, "workers": workers, "fault": fault, "wrap_result": draw(st.sampled_from([False, True, "own_stop"])),
             "second_run": draw(st.booleans()),
+            "eq_mode": draw(st.sampled_from(["identity", "identity", "all-equal", "unhashable"])),    # how the sub-suites compare / hash
+            "routes": draw(st.sampled_from(["distinct", "distinct", "none", "shared"])),              # (stream) the workers' route codes
             "lazy": draw(st.sampled_from([False, False, True])),       # make_tests yields the next sub-suite only once the earlier ones are done
             "failfast": draw(st.sampled_from([False, False, False, True])),   # (classic) the caller's result stops at the first failure
             "schedule": draw(st.lists(st.integers(0, 3), max_size=40))}
@@ -135,11 +137,15 @@ def execute(spec, schedule=None):
             self.runs = 0
             self.finished = False
 
-        def __hash__(self):
-            return hash(("worker", self.wid))
-
         def __eq__(self, other):
-            return self is other
+            if spec.get("eq_mode", "identity") == "identity":
+                return self is other
+            return isinstance(other, Worker)        # like two TestCases of the same class and method, or two TestSuites
+        if spec.get("eq_mode", "identity") == "unhashable":
+            __hash__ = None                         # like unittest.TestSuite
+        else:
+            def __hash__(self):
+                return hash("worker") if spec.get("eq_mode") == "all-equal" else hash(("worker", self.wid))
 
         def run(self, result):
             try:
@@ -164,7 +170,11 @@ def execute(spec, schedule=None):
                     raise (RunnerDied if self.w.get("base") else RuntimeError)("runner %d broke" % self.wid)
                 tid = "w%d.t%d" % (self.wid, i)
                 worker_log.append((self.wid, "test", tid, kind))
-                if kind == "flood":
+                if kind == "raw" and spec.get("routes", "distinct") != "distinct":
+                    # an event that already carries a route code of its own (a nested stream)
+                    result.status(test_id=tid, test_status="inprogress", route_code="sub", timestamp=None)
+                    result.status(test_id=tid, test_status="success", route_code="sub", runnable=False)
+                elif kind == "flood":
                     # one test with hundreds of attachment chunks
                     result.status(test_id=tid, test_status="inprogress")
                     for j in range(FLOOD):
@@ -185,6 +195,9 @@ def execute(spec, schedule=None):
             worker_log.append((self.wid, "shouldStop", bool(result.shouldStop), aborted_before))
     workers = [Worker(i, w) for i, w in enumerate(spec["workers"])]
 
+    def route_of(i):
+        return {"distinct": "r%d" % i, "none": None, "shared": "r"}[spec.get("routes", "distinct")]
+
     def make_tests(*a):
         f = spec["fault"]
         for i, w in enumerate(workers):
@@ -195,7 +208,7 @@ def execute(spec, schedule=None):
                 sched.yield_point("make_tests.next")
             if f and f["at"] == "make_tests" and f["k"] == i:
                 raise (Interrupt if f.get("base") else Fault)("make_tests raised after %d sub-suites" % i)
-            yield (w, "r%d" % i) if stream else w
+            yield (w, route_of(i)) if stream else w
         if f and f["at"] == "make_tests" and f["k"] >= len(workers):
             sched.yield_point("make_tests.next")
             raise (Interrupt if f.get("base") else Fault)("make_tests raised after all sub-suites")
@@ -318,10 +331,33 @@ def execute(spec, schedule=None):
             ran = [e for e in worker_log if e[0] == w.wid and e[1] == "test"]
             broke = any(e[0] == w.wid and e[1] == "raised" and not e[2] for e in worker_log)
             if stream:
-                code = "r%d" % w.wid
-                mine = [s for s in caller.inner.statuses() if s["route_code"] == code]
-                if any(s["timestamp"] is None for s in mine):
-                    vs.append(V("delivery", "no-timestamp", "an event of worker %d reached the caller without a timestamp" % w.wid))
+                code = route_of(w.wid)
+                # a worker's events are known by their test ids (route codes may be shared or absent)
+                mine = [s for s in caller.inner.statuses() if (s["test_id"] or "").startswith("w%d." % w.wid) or
+                        (s["test_id"] or "") == "broken-runner-%r" % (code,) and spec.get("routes", "distinct") == "distinct"]
+                if any(s["timestamp"] is None or s["timestamp"].tzinfo is None for s in mine):
+                    vs.append(V("delivery", "no-timestamp", "an event of worker %d reached the caller without an (aware) timestamp" % w.wid))
+                for s in mine:
+                    own = "sub" if s["test_id"].startswith("w") and any(e[0] == w.wid and e[1] == "test" and e[2] == s["test_id"] and e[3] == "raw" for e in worker_log) \
+                        and spec.get("routes", "distinct") != "distinct" else None
+                    want_code = code if own is None else (own if code is None else code + "/" + own)
+                    if s["route_code"] != want_code:
+                        vs.append(V("delivery", "route-code", "event %r of worker %d arrived with route code %r, expected %r" % (s["test_id"], w.wid, s["route_code"], want_code)))
+                        break
+                for e in ran:
+                    if e[3] in H.METHOD:        # a PlaceHolder with known tags and times
+                        i_ = int(e[2].split(".t")[1])
+                        fin = [s for s in mine if s["test_id"] == e[2] and s["test_status"] not in (None, "inprogress")]
+                        first = [s for s in mine if s["test_id"] == e[2] and s["test_status"] == "inprogress"]
+                        if fin and (fin[0]["test_tags"] or frozenset()) != frozenset(["w%d" % w.wid]):
+                            vs.append(V("delivery", "stream-tags", "%s arrived with tags %r, its worker tagged it %r" % (e[2], fin[0]["test_tags"], ["w%d" % w.wid])))
+                        if fin and fin[0]["timestamp"] != H.ts(100 * w.wid + 2 * i_ + 1) or first and first[0]["timestamp"] != H.ts(100 * w.wid + 2 * i_):
+                            vs.append(V("delivery", "stream-time", "%s arrived with timestamps %r / %r, its own are %r / %r" % (
+                                e[2], first and first[0]["timestamp"], fin and fin[0]["timestamp"], H.ts(100 * w.wid + 2 * i_), H.ts(100 * w.wid + 2 * i_ + 1))))
+                    if e[3] == "raw" and spec.get("routes", "distinct") != "distinct":
+                        fin = [s for s in mine if s["test_id"] == e[2] and s["test_status"] == "success"]
+                        if fin and fin[0]["runnable"] is not False:
+                            vs.append(V("delivery", "stream-field", "%s was sent with runnable=False and arrived with runnable=%r" % (e[2], fin[0]["runnable"])))
                 got = [(s["test_id"], s["test_status"]) for s in mine if s["file_name"] is None]
                 want = []
                 for e in ran:
@@ -335,9 +371,15 @@ def execute(spec, schedule=None):
                 if got != want:
                     kind = "lost" if len(got) < len(want) else ("duplicated" if len(got) > len(want) else "reordered")
                     vs.append(V("delivery", "stream-" + kind, "worker %d emitted %r, caller received %r" % (w.wid, want, got)))
-                if broke and not any(b[1] == "fail" for b in broken):
+                if spec.get("routes", "distinct") != "distinct":
+                    # the broken-runner id is made from the route code, which these workers share: count them all
+                    all_broken = [x for x in caller.inner.statuses() if (x["test_id"] or "").startswith("broken-runner") and x["test_status"] == "fail"]
+                    n_broke = sum(1 for e in worker_log if e[1] == "raised" and not e[2])
+                    if len(all_broken) != n_broke and not any(v.bucket == "broken-runner:stream-count" for v in vs):
+                        vs.append(V("broken-runner", "stream-count", "%d workers raised from run(), %d broken-runner failures arrived" % (n_broke, len(all_broken))))
+                elif broke and not any(b[1] == "fail" for b in broken):
                     vs.append(V("broken-runner", "stream-not-reported", "worker %d raised from run() but no broken-runner failure arrived: %r" % (w.wid, broken)))
-                if not broke and broken:
+                if not broke and broken and spec.get("routes", "distinct") == "distinct":
                     vs.append(V("broken-runner", "stream-spurious", "broken-runner reported for a worker that did not break"))
             else:
                 evs = [e for e in caller.inner.events if e[0] in ("startTest", "stopTest") or e[0] in OUTCOMES]
@@ -413,7 +455,7 @@ H_STATUS = {"success": "success", "error": "fail", "failure": "fail", "skip": "s
 def run_case(spec):
     vs, stats, _ = execute(spec)
     nt = stats["switches"] >= 2 or stats["fault_fired"]
-    return Case(vs, nt, ["suite=" + spec["suite"], "workers=%d" % len(spec["workers"]), "lazy" if spec.get("lazy") else "eager",
+    return Case(vs, nt, ["suite=" + spec["suite"], "workers=%d" % len(spec["workers"]), "lazy" if spec.get("lazy") else "eager", "eq=" + spec.get("eq_mode", "identity"), "routes=" + spec.get("routes", "distinct") if spec["suite"] == "stream" else "",
                          "failfast" if spec.get("failfast") and spec["suite"] == "classic" else "", "fault=" + (spec["fault"]["at"] if spec["fault"] else "none"),
                          "fired" if stats["fault_fired"] else "", "switches=%d" % min(stats["switches"], 9)], stats)
 
@@ -450,8 +492,11 @@ def _enum_flood():
     for lazy in (True, False):
         for schedule in ([], [1] * 30, [0, 1, 2, 1, 0, 2] * 5):
             for ws in ([["flood"], ["success"]], [["flood", "failure"], ["flood"], []]):
-                yield {"suite": "stream", "workers": [{"tests": t, "raise_after": None, "base": False} for t in ws], "fault": None,
-                       "wrap_result": False, "second_run": False, "lazy": lazy, "failfast": False, "schedule": schedule}
+                for fault in (None, {"at": "result", "k": 3, "base": False}, {"at": "result", "k": 300, "base": True}):
+                    if fault and schedule:
+                        continue
+                    yield {"suite": "stream", "workers": [{"tests": t, "raise_after": None, "base": False} for t in ws], "fault": fault,
+                           "wrap_result": False, "second_run": False, "lazy": lazy and not fault, "failfast": False, "schedule": schedule}
 
 
 def subchecks(tier):
